@@ -4,6 +4,7 @@ CONSTANTS
   MaxStr = 2
   MaxTokens = 4
   MaxNum = 5
+  DefectivePairs = FALSE
   BigLeaves = FALSE
   Modes = {"value", "string", "text", "number", "escape"}
 INVARIANTS T_RoundTrip T_Total T_FixedPoint T_Stream T_Number T_Escape
